@@ -36,26 +36,28 @@ from ..core import R, dec_arr, dec_list, drive_enum, drive_hypothesis
 from ..oracles import classify as O
 
 PROP = "C12"
-RULE = ("Generator: rasters <= 10x10 (quick) / up to 40x40 (thorough) in float64/float32/int64/int32/int16/uint8, value pools with ties "
-        "(small ints, signed, quarters, decimals not representable in float32, 1e6+x offsets, integers above 2^24), NaN/+inf/-inf cells at "
-        "drawn densities; k in 2..40 (both <= and > the number of distinct values); ascending bin lists of length 1..12 (strict, "
-        "equal neighbours, +inf tail; int/float/decimal) with arbitrary new_values; value lists for binary; plus the exhaustive reclassify "
-        "sweep (every bin count n <= 64 quick / 256 thorough, raster holding every value below/on/between/above every bin, six dtypes, "
-        "strict / float-offset / decimal / paired-duplicate / single-duplicate-at-every-position bin lists). Oracles: NaN rule; integer labels "
-        "in [0,k-1]; order preservation; binary membership; first-bin rule; equal-width formula with a derived rounding band; "
-        "exact-rational percentile interval; Jenks optimum by an independent float64 DP (brute force below 14 values). "
-        "Non-trivial: data-driven classifiers - at least k distinct finite values; reclassify - a cell on a bin boundary or a non-finite cell, "
-        "and >= 2 different bins hit; binary - a listed and an unlisted finite cell; sweep cases are all non-trivial. Distinct by SHA-1 of the "
-        "case (random) or enumeration index (sweep).")
+RULE = ("Generator: rasters <= 10x10 (quick) / up to 30x30, 40x40 for natural_breaks (thorough) in float64/float32/int64/int32/int16/uint8 over a drawn "
+        "value pool (ties by construction: small ints, signed, quarters, decimals not representable in float32 (0.1 i, x/1000, 1e6 + x/1000, x/1000 up to 1e6), "
+        "odd integers above 2^24, arithmetic progressions that put a value on every equal-interval cut), NaN/+inf/-inf cells at drawn densities "
+        "(none, one, ~1/7, ~1/2, all but one); k in 2..40 on both sides of the number of distinct values; natural_breaks fitted on the whole raster "
+        "(num_sample default / None / >= size) or on a sample (invariants only); ascending bin lists of length 1..12 (strict, one or many equal neighbours, "
+        "+inf tail; int / half / decimal / mixed) with arbitrary new_values and cells on, next to and between the bins; value lists for binary; plus the "
+        "exhaustive reclassify sweep (every bin count n <= 64 quick / 256 thorough, one raster holding every value below / on / between / above every bin, "
+        "six dtypes, strict / float-offset / decimal / paired-duplicate bin lists, and one duplicated neighbour at every position d). "
+        "Oracles: NaN rule; integer labels in [0,k-1]; order preservation; binary membership; first-bin rule; equal-width formula with a derived rounding "
+        "band (zero when the arithmetic is exact); exact-rational percentile interval; Jenks optimum by an independent float64 DP (brute force below 14 values) "
+        "with a forward error bound. Non-trivial: data-driven classifiers - at least k distinct finite values; reclassify - a cell on a bin boundary or a "
+        "non-finite cell, and >= 2 different bins hit; binary - a listed and an unlisted finite cell; sweep cases are all non-trivial. Distinct by SHA-1 of "
+        "the case (random) or enumeration index (sweep). Recorded defect classes are avoided by construction (counted in excluded_known) and probed by the "
+        "four tiny defect_* shards.")
 ASSUMPTIONS = ["NumPy backend only (Dask/CuPy equivalence is C01)",
                "equal_interval: at least two distinct finite values (max > min) and class width >= 64 ulp of the largest magnitude",
                "quantile / natural_breaks: at least one finite cell",
                "bin lists ascending, finite except an optional +inf tail; new_values finite; binary value lists finite and non-empty",
                "magnitudes <= 1e9 so every integer/float involved is exact in float64",
                "reclassify output is float32 by documented convention: a new value is compared after rounding to float32"]
-BUDGET_S = {"quick": 150, "thorough": 1100}
+BUDGET_S = {"quick": 200, "thorough": 1200}
 
-F64 = "float64"
 DTYPES6 = ["float64", "float32", "int64", "int32", "int16", "uint8"]
 SWEEP_DTYPES = ["float64", "float32", "int64", "int32", "int16", "uint16"]
 BAD_K_SHARD_KS = [23, 31, 36, 58]
@@ -733,8 +735,8 @@ def _good_k(k):
 
 
 @st.composite
-def binary_cases(draw, max_side):
-    kind, spec = draw(rasters(max_side, free=True))
+def binary_cases(draw, max_side, dtypes=DTYPES6):
+    kind, spec = draw(rasters(max_side, dtypes=dtypes, free=True))
     present = sorted(set(v for row in spec["data"] for v in row if not isinstance(v, str)))
     isf = spec["dtype"].startswith("float")
     extra = [0, 1, 2, -1, 7] + ([0.5, 0.1, 2.25] if isf else [2.5])
@@ -748,8 +750,8 @@ def binary_cases(draw, max_side):
 
 
 @st.composite
-def reclassify_cases(draw, max_side):
-    dtype = draw(st.sampled_from(DTYPES6))
+def reclassify_cases(draw, max_side, dtypes=DTYPES6):
+    dtype = draw(st.sampled_from(dtypes))
     isf = dtype.startswith("float")
     bkind = draw(st.sampled_from(["int", "half", "decimal", "int", "mixed"]))
     n = draw(st.sampled_from([1, 2, 3, 4, 5, 6, 7, 8, 9, 10, 11, 12]))
@@ -808,7 +810,7 @@ def reclassify_cases(draw, max_side):
 
 
 @st.composite
-def equal_interval_cases(draw, max_side):
+def equal_interval_cases(draw, max_side, dtypes=DTYPES6):
     if draw(st.sampled_from([False, True, False])):
         # arithmetic progression with k*t+1 terms: a value on every interior cut (exactly, or within rounding for decimal steps)
         k = draw(st.sampled_from([4, 3, 2, 5, 6, 7, 8, 9, 10, 12, 16]))
@@ -816,9 +818,13 @@ def equal_interval_cases(draw, max_side):
         start = draw(st.sampled_from([0, -3, 0.5, 7, 0, -2.25, 0.1, 1000000.123]))
         step = draw(st.sampled_from([1, 0.25, 2, 3, 0.5, 0.1, 0.3]))
         isint = float(start).is_integer() and float(step).is_integer()
-        dtype = draw(st.sampled_from(["float64", "float32"] + (["int32", "int64", "int16"] if isint else ["float64"])))
-        if dtype == "float32" and start > 1e5:
-            dtype = "float64"
+        allowed = [d for d in ["float64", "float32"] + (["int32", "int64", "int16"] if isint else []) if d in dtypes]
+        if start > 1e5:
+            allowed = [d for d in allowed if d != "float32"]
+        if not allowed:                       # this shard's dtypes cannot hold the progression: integer one instead
+            start, step = (int(start) if abs(start) < 100 else 7), (1 if float(step) < 1 else int(step))
+            allowed = [d for d in dtypes if not d.startswith("float") and (d != "uint8" or start >= 0)] or ["float64"]
+        dtype = draw(st.sampled_from(allowed))
         pool = [start + i * step for i in range(k * t + 1)]
         if dtype == "float32":
             pool = [float(np.float32(p)) for p in pool]
@@ -833,13 +839,13 @@ def equal_interval_cases(draw, max_side):
         flat[i0], flat[i1] = pool[0], pool[-1]                    # min and max present: the cuts are the progression's
         data = [flat[i * w:(i + 1) * w] for i in range(h)]
         return {"sub": "equal_interval", "pal": "progression", "raster": {"dtype": dtype, "data": data}, "k": k}
-    kind, spec = draw(rasters(max_side, need=2))
+    kind, spec = draw(rasters(max_side, dtypes=dtypes, need=2))
     return {"sub": "equal_interval", "pal": kind, "raster": spec, "k": draw(st.sampled_from(K_LIST))}
 
 
 @st.composite
-def quantile_cases(draw, max_side):
-    kind, spec = draw(rasters(max_side, need=1, free=True))
+def quantile_cases(draw, max_side, dtypes=DTYPES6):
+    kind, spec = draw(rasters(max_side, dtypes=dtypes, need=1, free=True))
     k = draw(st.sampled_from(K_LIST))
     case = {"sub": "quantile", "pal": kind, "raster": spec, "k": k}
     if O.pvec_class(k) != "ok":
@@ -939,17 +945,24 @@ def shards(tier):
     side = 10
     out = []
 
-    def rnd(name, count, body, strat, per):
+    # each random shard works on a slice of the dtypes: every dtype is one more Numba specialisation of the kernels to compile
+    PAIRS = [["float64", "float32"], ["int64", "int32"], ["int16", "uint8"]]
+    HALVES = [["float64", "int32", "int16"], ["float32", "int64", "uint8"]]
+
+    def rnd(name, count, body, strat_fn, per, groups):
         for i in range(count):
+            strat = strat_fn(groups[i % len(groups)])
             out.append(("%s#%d" % (name, i), lambda ctx, body=body, strat=strat, per=per: drive_hypothesis(ctx, body, strat, per)))
-    rnd("binary_rand", 2 if not th else 4, body_binary, binary_cases(side if not th else 24), 500 if not th else 2500)
-    rnd("reclass_rand", 3 if not th else 6, body_reclassify, reclassify_cases(side if not th else 24), 700 if not th else 3000)
-    rnd("eqint_rand", 3 if not th else 6, body_equal_interval, equal_interval_cases(side if not th else 30), 600 if not th else 3000)
-    rnd("quant_rand", 3 if not th else 6, body_quantile, quantile_cases(side if not th else 30), 500 if not th else 2500)
-    rnd("nb_rand", 4 if not th else 6, body_natural_breaks, natural_breaks_cases(side if not th else 16), 400 if not th else 2000)
-    rnd("nb_nonf32", 2 if not th else 4, body_natural_breaks, natural_breaks_nonf32_cases(side if not th else 16), 400 if not th else 2000)
+    big = side if not th else 24
+    big30 = side if not th else 30
+    rnd("binary_rand", 2 if not th else 4, body_binary, lambda d: binary_cases(big, d), 500 if not th else 5000, HALVES)
+    rnd("reclass_rand", 3 if not th else 6, body_reclassify, lambda d: reclassify_cases(big, d), 700 if not th else 7000, PAIRS)
+    rnd("eqint_rand", 3 if not th else 6, body_equal_interval, lambda d: equal_interval_cases(big30, d), 600 if not th else 7000, PAIRS)
+    rnd("quant_rand", 3 if not th else 6, body_quantile, lambda d: quantile_cases(big30, d), 500 if not th else 6000, PAIRS)
+    rnd("nb_rand", 3 if not th else 6, body_natural_breaks, lambda d: natural_breaks_cases(side if not th else 16, d), 500 if not th else 5000, PAIRS)
+    rnd("nb_nonf32", 2 if not th else 4, body_natural_breaks, lambda d: natural_breaks_nonf32_cases(side if not th else 16), 400 if not th else 5000, [None])
     if th:
-        rnd("nb_large", 4, body_natural_breaks, natural_breaks_cases(40, dtypes=["float64", "float64", "float32", "int64"]), 150)
+        rnd("nb_large", 4, body_natural_breaks, lambda d: natural_breaks_cases(40, d), 400, [["float64"], ["float32", "float64"], ["int64", "float64"], ["float64"]])
     nmax = 256 if th else 64
     ns = list(range(1, nmax + 1))
     for dt in SWEEP_DTYPES:
